@@ -12,6 +12,7 @@ from ..pysym import ArtefactError, Unsupported
 from ..views import PyView, CView
 
 PROP = "C04"
+TASK_LIMIT = 600
 LEVEL = "translation_validation"
 RULE = ("DAG and LAYOUT programs x backends {numpy, jax, c} x all 6 rhs argument orders x all 24 scheme argument orders; "
         "index functions are decided over a symbolic z3 String, init_* with k<=2 symbolic (String key, Real value) overrides; "
